@@ -44,8 +44,22 @@ def durations(rng, order, n, ratio=None, short=0.8):
     return hs
 
 
-def points(rng, n, d, mag=8.0, short=0.8):
-    return [[real(rng, -mag, mag, short, 3) for _ in range(d)] for _ in range(n)]
+def points(rng, n, d, mag=8.0, short=0.8, pattern=None):
+    """waypoints; patterns with exact coincidences (a 'nothing to do here' shortcut in the code would trip over them):
+    repeat = two consecutive waypoints identical, still = all waypoints identical, axis = one coordinate constant"""
+    P = [[real(rng, -mag, mag, short, 3) for _ in range(d)] for _ in range(n)]
+    pattern = pattern or rng.choices(['random', 'repeat', 'still', 'axis'], [0.7, 0.15, 0.05, 0.10])[0]
+    if pattern == 'repeat' and n >= 2:
+        for _ in range(rng.choice([1, 1, 2])):
+            i = rng.randrange(n - 1)
+            P[i + 1] = list(P[i])
+    elif pattern == 'still':
+        P = [list(P[0]) for _ in range(n)]
+    elif pattern == 'axis':
+        j = rng.randrange(d)
+        for r in P:
+            r[j] = P[0][j]
+    return P
 
 
 def bc_vals(rng, order, d, mag=4.0, short=0.8, zero_prob=0.15, pattern=None):
@@ -65,7 +79,7 @@ def bc_vals(rng, order, d, mag=4.0, short=0.8, zero_prob=0.15, pattern=None):
 def upstream(rng, order, n, d, kind=None):
     """upstream gradient (gC rows n*nc x d, gT n): dense / sparse / unit"""
     nc = NC[order]
-    kind = kind if kind is not None else rng.choice(['dense', 'sparse', 'unit', 'unitT'])
+    kind = kind if kind is not None else rng.choice(['dense', 'sparse', 'unit', 'unitT', 'rowsparse', 'rowsparse'])
     rows = n * nc
     gC = [[0.0] * d for _ in range(rows)]
     gT = [0.0] * n
@@ -78,6 +92,17 @@ def upstream(rng, order, n, d, kind=None):
         gT[rng.randrange(n)] = real(rng, -2, 2, 0.8, 3)
     elif kind == 'unit':
         gC[rng.randrange(rows)][rng.randrange(d)] = 1.0
+    elif kind == 'rowsparse':
+        # per (segment, coordinate): only a few powers carry a gradient - often a single one (lowest, highest, …) -
+        # while another coordinate of the same segment may be dense ("is this block zero?" shortcuts trip over this)
+        gT = [real(rng, -2, 2, 0.8, 3) if rng.random() < 0.5 else 0.0 for _ in range(n)]
+        for i in range(n):
+            for j in range(d):
+                sel = rng.choice(['none', 'one', 'one', 'last', 'first', 'some', 'all'])
+                ks = {'none': [], 'one': [rng.randrange(nc)], 'last': [nc - 1], 'first': [0],
+                      'some': rng.sample(range(nc), rng.randint(1, nc - 1)), 'all': list(range(nc))}[sel]
+                for k in ks:
+                    gC[i * nc + k][j] = real(rng, -2, 2, 0.8, 3) or 1.0
     else:
         gT[rng.randrange(n)] = 1.0
     return gC, gT, kind
